@@ -196,9 +196,12 @@ impl C04 {
         if self.cfg.custom_classifier {
             v.push(Op::Call { ok: false, kind: 1, lat: 0 });
         }
-        v.push(Op::Wait(self.cfg.wait_ms));
+        // ("stay open until closed by hand": wait_duration_in_open = Duration::MAX; no finite wait
+        // ends it, the long wait of this alphabet is then an hour)
+        let forever = self.cfg.wait_ms >= crate::handle::WAIT_FOREVER;
+        v.push(Op::Wait(if forever { 3_600_000 } else { self.cfg.wait_ms }));
         // a short wait: 10 ms, or half the open wait in the seconds-range configurations
-        let short = if self.cfg.wait_ms >= 1000 { self.cfg.wait_ms / 2 } else { 10 };
+        let short = if forever { 10 } else if self.cfg.wait_ms >= 1000 { self.cfg.wait_ms / 2 } else { 10 };
         v.push(Op::Wait(short));
         if self.cfg.time_based {
             v.push(Op::Wait(self.cfg.window_ms + short));
@@ -271,7 +274,7 @@ impl SeqScenario for C04 {
         // explored no further. Wait out the open period, succeed permitted+1 times, then fail
         // until the window must have tripped; every step is compared like any other.
         let mut all: Vec<Op> = hist.iter().map(|&oi| alpha[oi].clone()).collect();
-        all.push(Op::Wait(cfg.wait_ms));
+        all.push(Op::Wait(if cfg.wait_ms >= crate::handle::WAIT_FOREVER { 3_600_000 } else { cfg.wait_ms }));
         for _ in 0..cfg.permitted + 1 {
             all.push(Op::Call { ok: true, kind: 0, lat: 0 });
         }
@@ -528,6 +531,27 @@ pub fn grid(thorough: bool) -> Vec<CbCfg> {
                 latency_inside_call: false,
             });
         }
+    }
+    // "stay open until closed by hand": wait_duration_in_open = Duration::MAX
+    for time_based in [false, true] {
+        v.push(CbCfg {
+            time_based,
+            window_size: 1,
+            window_ms: 50,
+            threshold: 0.5,
+            min_calls: Some(1),
+            wait_ms: crate::handle::WAIT_FOREVER,
+            wait_shave_us: 0,
+            permitted: 1,
+            slow_ms: None,
+            slow_rate: 1.0,
+            custom_classifier: false,
+            fallback: false,
+            fallback_gated: false,
+            classifier_first: false,
+            preset_start: false,
+            latency_inside_call: false,
+        });
     }
     // a wait below one millisecond (0.9 ms): the breaker is open at the instant it opened and
     // a millisecond later the wait is over
